@@ -83,7 +83,6 @@ def run_pipe(ctx, cases, shards=None, race=False, binname="pbfpipe", env=None):
             out[s + j * shards] = r
     if any(r is None for r in out):
         raise vlib.Infra("pbfpipe: missing records")
-    ctx.evaluations += len(out)
     return out
 
 
